@@ -9,7 +9,7 @@ from fractions import Fraction as Fr
 import itertools
 from symnp import core
 from symnp.core import band, bor, bnot, iff, implies
-from .common import POOL, TINY, slice_points
+from .common import POOL, TINY, slice_points, get_curve, random_curves
 from .rdpstubs import Stubs, patched, tagged_points, well_formed, STUB_DOC
 
 PROPERTY = 'C01'
@@ -143,7 +143,7 @@ def run_L1(h, case):
 def run_L0(h, case):
     fn = case['fn']
     rdp, M = h.L.rdp, h.L.metrics.Metrics
-    X, Y = slice_points(h, POOL[case['curve']], case['pos'])
+    X, Y = slice_points(h, get_curve(case['curve']), case['pos'])
     n = len(X)
     pts = h.argument(h.array([[a, b] for a, b in zip(X, Y)]))
     dist = getattr(rdp.Distance, case.get('distance', 'shortest'))
@@ -220,6 +220,16 @@ def run(h, case):
 
 def allowed_outcome(case, rec):
     return False
+
+
+def realise(case, rnd):
+    """concretiser for abstract (stubbed-kernel) counterexamples: the same call on small random integer curves, executed on the real package"""
+    n = case['n']
+    for curve in random_curves(n, rnd, 60):
+        c2 = dict(layer='L0', fn=case['fn'], curve=curve, pos=[], distance=case.get('distance', 'shortest'), metric=case.get('metric', 'smape'),
+                  order=case.get('order', 'segment'), realised_from=dict(fn=case['fn'], n=n))
+        for t in ('1/20', '1/5'):
+            yield c2, dict(t=t, t1=t, t2='1/100')
 
 
 LEVEL_TEXT = ('Bounded symbolic model checking in three layers. L1: the real driver code of all five simplifiers runs over kernel stubs that are free solver '
